@@ -782,7 +782,7 @@ func init() {
 	mc.Register(&mc.Prop{
 		ID:    "C11",
 		Level: "model_checking",
-		Rule: "subprocess-mode exploration of the goalign binary instrumented from the current tree: for each of the listed command scenarios (every documented command family, 1-3 flag sets each, on small nucleotide / protein / multi-Phylip / malformed-second-alignment inputs) x seeds {1,7} (randomised commands) x --threads {1,2,3,16} (threaded commands): the default execution, then EVERY execution within 2 (quick) / 3 (thorough) deviations from it when run with one thread, 2 deviations with 2 threads and 1 deviation with 3 and 16 threads (both tiers) — a deviation is one scheduling decision other than the default (keep the running goroutine, else the lowest runnable id) at a channel/mutex/WaitGroup/spawn operation, one non-sorted iteration order at a ranged map, or one clock step at time.Now — must give exactly the bytes (stdout, exit status, every file written) of the default one-thread execution, end normally, and show no data race (vector clocks). " +
+		Rule: "subprocess-mode exploration of the goalign binary instrumented from the current tree: for each of the listed command scenarios (every documented command family, 1-3 flag sets each, on small nucleotide / protein / multi-Phylip / malformed-second-alignment inputs) x seeds {1,7} (randomised commands; shuffle seqs and sample sites also 0, -2, -1234567890123, build seqboot and mutate snvs also -2: every seed but the documented -1 replays) x --threads {1,2,3,16} (threaded commands): the default execution, then EVERY execution within 2 (quick) / 3 (thorough) deviations from it when run with one thread, 2 deviations with 2 threads and 1 deviation with 3 and 16 threads (both tiers) — a deviation is one scheduling decision other than the default (keep the running goroutine, else the lowest runnable id) at a channel/mutex/WaitGroup/spawn operation, one non-sorted iteration order at a ranged map, or one clock step at time.Now — must give exactly the bytes (stdout, exit status, every file written) of the default one-thread execution, end normally, and show no data race (vector clocks). " +
 			"Reformat chains: ALL format sequences of <=3 conversions among fasta/phylip/nexus/clustal that return to the starting format, on 7 inputs (one that fits no alphabet as a whole, one with '?', '*' and lower case, one whose names are NEXUS keywords but for their case), must return the starting bytes; build distboot == build seqboot + compute distance for 9 models (6 nucleotide, 3 protein on a gapped protein alignment) x {no flag, -r, --alpha 0.7, both} x 2 seeds, and x partial bootstrap -f 0.5, 0.25. Each scenario also runs on the uninstrumented binary and on the instrumented binary in pass-through mode (must agree). states/transitions = nodes/edges of the choice trees; distinct_nontrivial = distinct (scenario, seed, threads, choice list) executions compared.",
 		Assumptions: []string{
 			"scheduling points only at synchronisation operations (channel, mutex, WaitGroup, go); data races are reported separately by vector clocks",
@@ -799,6 +799,13 @@ func init() {
 				seeds := []int{0}
 				if sc.Seeded {
 					seeds = []int{1, 7}
+					// the rest of the seed domain: 0, negative seeds other than the documented -1 ("nano seconds since 1970")
+					switch sc.Name {
+					case "shuffle-seqs", "sample-sites":
+						seeds = append(seeds, 0, -2, -1234567890123)
+					case "seqboot", "mutate-snvs":
+						seeds = append(seeds, -2)
+					}
 				}
 				threads := []int{1}
 				if sc.Threads {
